@@ -33,52 +33,59 @@ def _cvc5(smt2, timeout_ms, extra=()):
         os.unlink(path)
 
 
-def check_sat(constraints, timeout_ms=QUICK_MS, want_model=True, use_cvc5=True, logic=None, both=False):
-    """Returns (status, model_or_None, backend, secs); status in sat/unsat/unknown.
-
-    Ladder (DESIGN §2.3): z3 default -> z3 second seed, mbqi off -> cvc5.
-    both=True additionally runs cvc5 on a z3 'unsat' and raises on disagreement."""
-    t0 = time.time()
-    s = z3.Solver() if logic is None else z3.SolverFor(logic)
+def _z3_try(constraints, timeout_ms, alt):
+    s = z3.Solver()
     s.set("timeout", int(timeout_ms))
-    for c in constraints:
-        s.add(c)
-    r = s.check()
-    backend = "z3"
-    if r == z3.unknown:
-        s2 = z3.Solver()
-        s2.set("timeout", int(timeout_ms))
-        s2.set("random_seed", 7)
+    if alt:
+        s.set("random_seed", 7)
         try:
-            s2.set("smt.mbqi", False)
+            s.set("smt.mbqi", False)
         except Exception:
             pass
-        for c in constraints:
-            s2.add(c)
-        r2 = s2.check()
-        if r2 != z3.unknown:
-            r, s, backend = r2, s2, "z3(seed2,mbqi=off)"
-    if r == z3.unknown and use_cvc5:
-        txt = "(set-logic ALL)\n" + s.to_smt2()
-        c = _cvc5(txt, timeout_ms)
-        if c == "unsat":
-            return "unsat", None, "cvc5", time.time() - t0
-        if c == "sat":
-            return "sat", None, "cvc5", time.time() - t0
-    if r == z3.unsat and both:
-        txt = "(set-logic ALL)\n" + s.to_smt2()
-        c = _cvc5(txt, timeout_ms)
-        if c == "sat":
-            from .common import CheckerError
+    for c in constraints:
+        s.add(c)
+    t0 = time.time()
+    r = s.check()
+    return r, s, time.time() - t0
 
-            raise CheckerError("z3 says unsat, cvc5 says sat on the same obligation")
-        if c == "unsat":
-            backend = "z3+cvc5"
-    if r == z3.sat:
-        return "sat", (s.model() if want_model else None), backend, time.time() - t0
-    if r == z3.unsat:
-        return "unsat", None, backend, time.time() - t0
-    return "unknown", None, backend, time.time() - t0
+
+def check_sat(constraints, timeout_ms=QUICK_MS, want_model=True, use_cvc5=True, logic=None, both=False):
+    """Returns (status, model_or_None, backend, secs); status in sat/unsat/unknown; secs = time of the DECIDING attempt.
+
+    Ladder (DESIGN §2.3), staged so that a query one configuration finds hard does not burn the whole budget before the next one is
+    tried: [z3 default, z3 second seed + mbqi off, cvc5] first with a short slice (<= 2 s / 5 s), then each with the full budget.
+    both=True additionally runs cvc5 on a z3 'unsat' and raises on disagreement."""
+    t_start = time.time()
+    short = min(2000, timeout_ms)
+    plan = [("z3", False, short), ("z3(seed2,mbqi=off)", True, short)]
+    if use_cvc5:
+        plan.append(("cvc5", None, min(5000, timeout_ms)))
+    if timeout_ms > short:
+        plan += [("z3", False, timeout_ms), ("z3(seed2,mbqi=off)", True, timeout_ms)] + ([("cvc5", None, timeout_ms)] if use_cvc5 else [])
+    last_solver = None
+    for backend, alt, tmo in plan:
+        if backend == "cvc5":
+            if last_solver is None:
+                continue
+            t0 = time.time()
+            c = _cvc5("(set-logic ALL)\n" + last_solver.to_smt2(), tmo)
+            if c in ("unsat", "sat"):
+                return c, None, "cvc5", time.time() - t0
+            continue
+        r, sv, secs = _z3_try(constraints, tmo, alt)
+        last_solver = sv
+        if r == z3.unsat:
+            if both:
+                c = _cvc5("(set-logic ALL)\n" + sv.to_smt2(), min(timeout_ms, 30000))
+                if c == "sat":
+                    from .common import CheckerError
+                    raise CheckerError("z3 says unsat, cvc5 says sat on the same obligation")
+                if c == "unsat":
+                    backend = backend + "+cvc5"
+            return "unsat", None, backend, secs
+        if r == z3.sat:
+            return "sat", (sv.model() if want_model else None), backend, secs
+    return "unknown", None, "z3", time.time() - t_start
 
 
 def prove(hyps, goal, timeout_ms=QUICK_MS, both=False):
